@@ -402,6 +402,8 @@ def check_path(e: Engine, job, out, size, specs_sym, etag_ok: bool):
         for it in body:
             if isinstance(it, (Slice, tuple)):
                 raise Fail("file-data-on-error-response")
+        if head:  # HEAD sends the headers with an empty body, whatever the status
+            must(e, total_len(e, body) == 0, "head-with-body", f"status {status}")
         if status == 416:
             cr = hdr(headers, "content-range")
             if len(cr) != 1 or not cr[0].startswith("*/"):
@@ -611,6 +613,8 @@ def concrete_problem(iface, method, size, chunk, range_hdr, if_range_kind, ctype
                 return f"416 content-range {h.get('content-range')!r}"
             if any(data[i:i + 8] in body for i in range(0, max(0, size - 8))) and size >= 16:
                 return "file data on error response"
+            if method == "HEAD" and body:
+                return f"HEAD answered {status} with a body of {len(body)} bytes"
             return None
         exp_status = 206
         runs = []
